@@ -203,9 +203,12 @@ def surface(draw, variants=("acorn", "watford", "opus"), geoms=None, chars=None,
         seen = set()
         for e in low + high:
             key = (chr(e["dir"]).lower(), bytes(e["name"]).lower())
+            k = len(seen)
             while key in seen:
-                e["name"] = (bytes(e["name"])[:5] + b"%d" % (len(seen) % 90))[:7]
+                # (the counter must advance: with a small alphabet the first replacement can itself be taken)
+                e["name"] = (bytes(e["name"])[:4] + b"%d" % (k % 900))[:7]
                 key = (chr(e["dir"]).lower(), bytes(e["name"]).lower())
+                k += 1
             seen.add(key)
         special = {"name": nm, "dir": ord("$"), "locked": draw(st.booleans()), "load": draw(addr18),
                    "exec": draw(addr18), "length": 600, "start": st_sec, "body": draw(body_spec)}
